@@ -66,6 +66,7 @@ static void runPlanInChild(const char* text, size_t len) {
 		int timeout = jint(plan, "timeout_s", 30);
 		simReadWindow() = size_t(ju64(plan, "read_window", 0));
 		if (simReadWindow()) ctx.fault("F-CHUNK");
+		simReuseObject() = jbool(plan, "reuse_object", false);
 		alarm(timeout);
 		auto fn = findProfile(profile);
 		if (!fn) {
